@@ -18,11 +18,11 @@ CHECKS = {
         note="Trusted: wrappers on the buffer primitives see all library writes; writes through to_nplike views are caught by the byte diff only.", ref="2 C03"),
     "C05": dict(
         technique="runtime monitoring: independent observer (decoder written from the format documents only) over raw bytes of generated objects",
-        text="Held on the observed objects: a decoder that shares no code or class attributes with the library recovers the model value from the raw buffer bytes with no format violation.", 
+        text="Held on the observed objects: a decoder that shares no code or class attributes with the library recovers the model value from the raw buffer bytes with no format violation, after construction from ten input forms and after each of up to three fitting assignments.", 
         note="Where types.rst and the property text disagree on Ref encoding, the property text wins. Padding bytes are not inspected.", ref="2 C05"),
     "C06": dict(
         technique="runtime monitoring: differential observation of constructor handle vs _from_buffer view (model comparison, structural attributes, cross write/read)",
-        text="Held on the observed objects: root and every nested compound compared between handle, view-through-handle and fresh view; writes through one side read back through the other.",
+        text="Held on the observed objects: root and every nested compound compared between handle, view-through-handle and fresh view (also after forced growth); writes through one side, including stores through to_nplike()/to_nparray() windows, read back through the other.",
         note="Internal caches (_offsets) are not compared, only observable attributes (_offset,_shape,_strides,_size,len) and values.", ref="2 C06"),
     "C13": dict(
         technique="runtime contracts (icontract pre/postconditions with whole-buffer snapshots) under small-scope exhaustive enumeration",
@@ -44,7 +44,7 @@ CHECKS = {
              "interval exists.", ref="2 C12"),
     "C02": dict(
         technique="runtime monitoring: differential execution of the emitted C accessors (real ContextCpu/cffi call path, plus stand-alone clang ASan/UBSan build) against the Python view of the same object",
-        text="Held on the observed calls: every generated get/getp/len/typeid/member function of every access path of each generated type, called for all sampled in-range index tuples on objects never placed at offset 0, returned the value, element address, length and member identity the Python accessors report.",
+        text="Held on the observed calls: every generated get/getp/len/typeid/member function of every access path of each generated type, called for all sampled in-range index tuples on objects never placed at offset 0, returned the value, element address, length and member identity the Python accessors report, also after forced buffer growth between calls; with the strides stored in an array header overwritten by other values, C and a fresh Python view both follow the documented address expression.",
         note="The symbolic 'for all indices and all header contents at once' clause is decided only observationally (the objects actually built). Paths through a null reference are outside the domain.", ref="2 C02"),
     "C07": dict(
         technique="compiler sanitizers (clang-14 ASan+UBSan, -fno-sanitize-recover=all) on a stand-alone build of the emitted accessors over an exactly-sized malloc image, plus runtime monitoring of setters (whole-object re-read and byte diff after each call)",
